@@ -15,14 +15,19 @@ LEAN_TARGETS = ['ScnVerif.Props.C07']
 PROPS_FILE = 'ScnVerif/Props/C07.lean'
 TRANSLATORS = []
 RULE = (
-    'per kernel, the Cartesian grid of (unit per argument) x (dtype per numeric argument in float64/float32/int64/int32): '
+    'per kernel, the Cartesian grid of (unit per argument) x (dtype per numeric argument in float64/float32/int64/int32); units: '
+    'ps/ns/us/ms/s, fm/pm/angstrom/nm/um/mm/cm/m/km for every length-like argument (flight paths, beams, wavelengths), '
+    'neV/ueV/meV/eV/keV/J, 1/pm..1/m, deg/rad, gravity in mm,cm,m,km per s^2 (units scipp cannot convert are dropped and counted): '
     'every cell is one call of the real kernel on 2 elements (float operands log-uniform over moderate physical ranges '
     'expressed in the cell\'s units; integer operands 1..2000 in the cell\'s unit, angles 1..180 deg / 1..3 rad), checked for '
     'documented output unit, dtype contract, value against the exact physical formula (which is unit-free, so agreement in '
     'every cell is unit equivariance), plus one direct re-expression of a randomly chosen argument in another unit of the grid. '
     'thorough: every cell of every kernel (exhaustive); quick: every cell of the kernels with <= 3000 cells, a seeded sample of '
     '1500 cells of the larger grids. Cells scipp itself cannot evaluate (int32 base of pow) are detected by probing the scipp '
-    'primitive, skipped and counted. A cell is non-trivial when the kernel returned a finite value that was compared; distinct '
+    'primitive, skipped and counted. Call-twice cells: for every kernel, every cell whose units are the SI unit or the unit the '
+    'kernel works in (s/us, m, angstrom, J/meV, 1/m,1/angstrom, rad) x all dtype combinations (always exhaustive), plus 10 % of '
+    'the ordinary cells: the kernel is called twice on the same operand objects; operands must be bit-identical afterwards and '
+    'the second result bit-identical to the first. A cell is non-trivial when the kernel returned a finite value that was compared; distinct '
     '= distinct (kernel, units, dtypes).'
 )
 ASSUMPTIONS = [
@@ -52,7 +57,9 @@ TRUSTED = [
 
 #: inelastic kernels: (t - t0) / t0 below which the subtraction t - t0 amplifies rounding by more than 20x
 MIN_MARGIN = Decimal('0.05')
-VEC_UNITS = ['mm', 'cm', 'm', 'km', 'angstrom']
+VEC_UNITS = list(tk.UNITS['length'])
+#: fraction of the ordinary grid cells that additionally get the call-twice test (the no-op-candidate cells always do)
+TWICE_FRACTION = 0.1
 GRAV_UNITS = ['m/s^2', 'mm/s^2', 'cm/s^2', 'km/s^2']
 NUM_DTYPES = tk.DTYPES
 
@@ -557,6 +564,115 @@ def _check_reexpression(ctx, spec, units, dtypes, vals, res, report=True):
     return found, units2
 
 
+# ---- calling a kernel twice on the same operand objects ----------------------------------------------------
+
+def _snap(v):
+    """bit-level snapshot of a variable: dtype, unit, dims, shape and the bytes of its values"""
+    return (str(v.dtype), str(v.unit), tuple(v.dims), tuple(v.shape), np.ascontiguousarray(v.values).tobytes())
+
+
+def _snap_result(r):
+    outs = r if isinstance(r, dict) else {None: r}
+    return {k: _snap(v) for k, v in outs.items()}
+
+
+def check_twice(name, fn, kw, wit):
+    """the kernel is called TWICE on the same operand objects: the operands must be bit-identical afterwards and the
+    second result bit-identical to the first.  (A kernel that converts an operand with copy=False and then works in place
+    passes every single-call check but fails here in exactly the cells whose units make the conversion a no-op.)"""
+    found = []
+    if name.startswith('_'):
+        # Private helpers (e.g. _drop_due_to_gravity, which squares the `distance` temporary its public callers hand it)
+        # may work in place on their arguments by design; that is not observable through any public entry point and
+        # demanding otherwise would go beyond the property. Their public callers are tested.
+        return found
+    before = {k: _snap(v) for k, v in kw.items()}
+    try:
+        s1 = _snap_result(fn(**kw))
+    except Exception:  # noqa: BLE001
+        return found  # raising cells are judged by the single-call checks
+    mid = {k: _snap(v) for k, v in kw.items()}
+    changed = [k for k in kw if mid[k] != before[k]]
+    for k in changed:
+        found.append((f'C07:operand-modified:{name}',
+                      f'{name} modified its operand `{k}` in place: {before[k][0]} [{before[k][1]}] values '
+                      f'{np.frombuffer(before[k][4], dtype=before[k][0])[:3].tolist()} became {mid[k][0]} [{mid[k][1]}] '
+                      f'{np.frombuffer(mid[k][4], dtype=mid[k][0])[:3].tolist()}', {**wit, 'operand': k}))
+    try:
+        s2 = _snap_result(fn(**kw))
+    except Exception as e:  # noqa: BLE001
+        found.append((f'C07:second-call-differs:{name}', f'{name}: the second call on the same operands raised {tk.err_kind(e)}', wit))
+        return found
+    if s1 != s2:
+        out = next(k for k in s1 if s1[k] != s2.get(k))
+        a, b = s1[out], s2[out]
+        found.append((f'C07:second-call-differs:{name}',
+                      f'{name}: second call on the same operand objects returns {b[0]} [{b[1]}] '
+                      f'{np.frombuffer(b[4], dtype=b[0])[:3].tolist()}, the first returned {a[0]} [{a[1]}] '
+                      f'{np.frombuffer(a[4], dtype=a[0])[:3].tolist()}' + (f' (operand(s) {changed} were overwritten by the first call)' if changed else ''),
+                      {**wit, 'output': out}))
+    after = {k: _snap(v) for k, v in kw.items()}
+    for k in kw:
+        if after[k] != mid[k] and k not in changed:
+            found.append((f'C07:operand-modified:{name}', f'{name} modified its operand `{k}` in place on the second call', {**wit, 'operand': k}))
+    return found
+
+
+def _noop_units(kind, avail):
+    out = []
+    for table in (tk.SI_UNIT, tk.NATURAL_UNIT):
+        u = table[kind]
+        if u in avail and u not in out:
+            out.append(u)
+    return out or [avail[0]]
+
+
+def noop_cells_elastic(kernel):
+    """cells in which every argument comes in its SI unit or in the unit the kernel documents / works in (s or us, m,
+    angstrom, J or meV, 1/m or 1/angstrom, rad): the candidates for internal unit conversions that are no-ops"""
+    names = [a for a, _ in kernel.args]
+    for units in itertools.product(*[_noop_units(k, tk.UNITS[k]) for _, k in kernel.args]):
+        for dts in itertools.product(*[tk.DTYPES for _ in names]):
+            yield dict(zip(names, units)), dict(zip(names, dts))
+
+
+def noop_cells_spec(spec):
+    names = [a.name for a in spec.args]
+    for units in itertools.product(*[_noop_units(a.kind, a.units) for a in spec.args]):
+        u = dict(zip(names, units))
+        if any(len({u[n] for n in grp}) > 1 for grp in spec.tied):
+            continue
+        for dts in itertools.product(*[a.dtypes for a in spec.args]):
+            yield u, dict(zip(names, dts))
+
+
+def twice_elastic(kernel, units, dtypes, values):
+    kw, _, _ = c01.build_operands(kernel, units, dtypes, '1d', values)
+    return check_twice(kernel.name, kernel.func(), kw, _wit(kernel.name, units, dtypes, values))
+
+
+def twice_spec(spec, units, dtypes, vals):
+    return check_twice(spec.name, spec.fn, build_vars(spec, units, dtypes, vals), _wit(spec.name, units, dtypes, vals))
+
+
+def _oracle_twice(ctx, h, mn):
+    """every no-op-candidate cell of every kernel (all dtype combinations), always exhaustive"""
+    rng = ctx.rng
+    for name in tk.ELASTIC:
+        kernel = tk.KERNELS[name]
+        for units, dtypes in noop_cells_elastic(kernel):
+            values = {a: [tk.draw_value(rng, kind, units[a], dtypes[a], tk.MODERATE) for _ in range(2)] for a, kind in kernel.args}
+            ctx.case(('twice', name, tuple(sorted(units.items())), tuple(sorted(dtypes.items()))), True)
+            ctx.count(f'twice:{name}')
+            _report(ctx, twice_elastic(kernel, units, dtypes, values))
+    for name, spec in _specs().items():
+        for units, dtypes in noop_cells_spec(spec):
+            vals = draw_cell_values(rng, spec, units, dtypes, 2)
+            ctx.case(('twice', name, tuple(sorted(units.items())), tuple(sorted(dtypes.items()))), True)
+            ctx.count(f'twice:{name}')
+            _report(ctx, twice_spec(spec, units, dtypes, vals))
+
+
 # ---- elastic kernels (modelled in Lean): grid cells ---------------------------------------------------
 
 def elastic_cells(kernel):
@@ -659,6 +775,8 @@ def correspond(ctx):
     (`c07.dt`) against the implementation's result dtype on every dtype combination"""
     h, mn = tk.constants()
     rng = ctx.rng
+    for b in tk.check_scales_against_scipp():
+        ctx.disagree('unit scale table', b, '', 'scipp unit scale differs from the exact table of the harness')
     jobs, lines = [], []
     for name in tk.ELASTIC:
         kernel = tk.KERNELS[name]
@@ -810,6 +928,9 @@ def _report(ctx, found):
 def oracle(ctx, deep):
     h, mn = tk.constants()
     rng = ctx.rng
+    tk.check_scales_against_scipp()
+    for u in tk.UNSUPPORTED:
+        ctx.count(f'skipped:unit-not-convertible-by-scipp:{u}')
     limit = None if (not ctx.quick and not deep) else (3000 if not deep else 1200)
     all_exhaustive = True
     for name in tk.ELASTIC:
@@ -823,6 +944,9 @@ def oracle(ctx, deep):
             ctx.count(f'cells:{name}')
             if res['ok']:
                 found += reexpress_elastic(ctx, kernel, units, dtypes, values, res, h, mn)
+                if rng.random() < TWICE_FRACTION:
+                    ctx.count(f'twice:{name}')
+                    found += twice_elastic(kernel, units, dtypes, values)
             _report(ctx, found)
     specs = _specs()
     big_limit = None if (not ctx.quick and not deep) else (1500 if not deep else 800)
@@ -840,7 +964,11 @@ def oracle(ctx, deep):
             found = _classify(found, name, dtypes, units)
             if res is not None and res['ok']:
                 found += check_reexpression(ctx, spec, units, dtypes, vals, res)
+                if rng.random() < TWICE_FRACTION:
+                    ctx.count(f'twice:{name}')
+                    found += twice_spec(spec, units, dtypes, vals)
             _report(ctx, found)
+    _oracle_twice(ctx, h, mn)
     _oracle_unit_rejections(ctx)
     if not deep:
         ctx.exhaustive = bool(all_exhaustive)
@@ -897,6 +1025,14 @@ def replay(ctx, payload):
     h, mn = tk.constants()
     name = w.get('kernel')
     nc = _NullCtx()
+    if key.startswith(('C07:operand-modified:', 'C07:second-call-differs:')):
+        if name in tk.KERNELS:
+            found = twice_elastic(tk.KERNELS[name], w['units'], w['dtypes'], w['values'])
+        else:
+            found = twice_spec(_specs()[name], w['units'], w['dtypes'], w['values'])
+        for k, what, _ in found:
+            print(k, '-', what)
+        return any(k == key for k, _, _ in found)
     if name in tk.KERNELS:
         kernel = tk.KERNELS[name]
         found, res = check_elastic_cell(nc, kernel, w['units'], w['dtypes'], w['values'], h, mn, report=False)
